@@ -544,6 +544,8 @@ impl AccessRaw for RawVector {
 
     #[inline]
     unsafe fn word_unchecked(&self, index: usize) -> u64 {
+        #[cfg(feature = "verif_hooks")]
+        assert!(index < self.data.len(), "verif_hooks: oob");
         *self.data.get_unchecked(index)
     }
 
@@ -977,6 +979,8 @@ impl<'a> AccessRaw for RawVectorMapper<'a> {
 
     #[inline]
     unsafe fn word_unchecked(&self, index: usize) -> u64 {
+        #[cfg(feature = "verif_hooks")]
+        assert!(index < self.data.len(), "verif_hooks: oob");
         *self.data.get_unchecked(index)
     }
 
